@@ -192,6 +192,7 @@ def run(ctx):
     name_scopes(ctx, "R04-g")
     token_readers_guarded(ctx, "R04-h")
     every_attribute_contributes(ctx, "R04-i")
+    module_file_attrs_scope(ctx, "R04-j")
 
 
 def spelling(ctx, rid):
@@ -747,3 +748,34 @@ def every_attribute_contributes(ctx, rid):
                     "named by the others are reformatted" % nm, [c.loc()])
     if not n_iter and not bad:
         r.undecidable(rid, "get_skip_names: no traversal of the attribute slice found")
+
+
+def module_file_attrs_scope(ctx, rid):
+    """R04-j: the inner attributes of every formatted file reach the skip context, not only those of the crate root"""
+    p, r = ctx.p, ctx.r
+    r.rule(rid, "FormatContext::format_file calls SkipContext::update_with_attrs with the attributes of the *module being "
+                "formatted* (derived from its `module` parameter) before format_separate_mod — besides the crate root's: "
+                "`#![rustfmt::skip::macros(..)]` at the top of sub.rs must mean the same whether sub.rs is reached through "
+                "`mod sub;` or given on the command line")
+    f = p.named("format_file", within="FormatContext")
+    if f is None:
+        r.undecidable(rid, "FormatContext::format_file not found")
+        return
+    mods = [i for i in range(1, f.argc + 1) if "modules::Module" in f.locals[i]]
+    upd = [c for c in f.calls() if c.name.endswith("SkipContext::update_with_attrs")]
+    fsm = [c for c in f.calls() if c.name.endswith("::format_separate_mod")]
+    own = []
+    for c in upd:
+        if len(c.args) > 1 and c.args[1][0] != "k":
+            d = f.derived_from(c.args[1][1][0])
+            if any(m in d["locals"] or m in d["args"] for m in mods):
+                own.append(c)
+    ok = bool(own) and bool(fsm) and all(any(u.bb in f.dominators().get(s_.bb, ()) for u in own) for s_ in fsm)
+    r.instance(rid, "format_file scopes the module's own attributes", "ok" if ok else "violation", "%s:%d" % (f.file, f.line),
+               "%d updates, %d from the module" % (len(upd), len(own)))
+    if not ok:
+        r.violation(rid, "format_file does not add the module file's own skip names",
+                    "the skip context of a file's visitor is filled from the crate root's attributes only: inner "
+                    "`#![rustfmt::skip::macros(..)]` / `#![rustfmt::skip::attributes(..)]` of an out-of-line module file are "
+                    "ignored when the file is formatted through its parent", ["%s:%d" % (f.file, f.line)])
+    r.floor(rid, len(upd), 1, "update_with_attrs calls in format_file")
